@@ -81,4 +81,92 @@ def tWeight : TState → Nat
 def qMeasure (s : QState) : Nat :=
   2 * s.queue.length + (s.threads.map tWeight).sum
 
+/-! ## The protocol refined with the kernel calls' programs
+
+`qStep` treats a kernel call as one opaque `running` phase.  Here the phase is
+opened up: a worker that took part `p` holds the REMAINING PROGRAM of its kernel
+call (initially `prog p`, the whole program of the part; for `ndl.ndl` the
+micro-steps `partProgram p rows files`), executes it step by step (`micro`),
+and can return (`finish`) only when nothing remains.  Steps of different
+workers interleave arbitrarily.  The program counter is THREAD-LOCAL: if the
+protocol handed a part out twice, its program would run twice — that each part
+program runs exactly once is a theorem about this system
+(`PyndlProofs/QueueSchedule.lean`), not built into it. -/
+
+inductive RThread (α : Type) where
+  | atHead
+  | running (part : Nat) (rest : List α)
+  | done
+  | failed
+deriving Repr, DecidableEq
+
+structure RState (α : Type) where
+  queue : List Nat
+  threads : List (RThread α)
+  taken : List Nat
+deriving Repr, DecidableEq
+
+inductive RAction where
+  | take (t : Nat)    -- locked: queue non-empty → get(); the kernel call starts
+  | exit (t : Nat)    -- locked: queue empty → break
+  | micro (t : Nat)   -- the kernel call of worker t performs its next step
+  | finish (t : Nat)  -- the kernel call has performed all its steps and returns
+  | fail (t : Nat)    -- the kernel call raises (at any point of its program)
+deriving Repr, DecidableEq
+
+def rInit {α : Type} (nParts nThreads : Nat) : RState α :=
+  ⟨List.range nParts, List.replicate nThreads .atHead, []⟩
+
+/-- one transition, with the step of a kernel program it performs (if any) -/
+def rStep {α : Type} (prog : Nat → List α) (s : RState α) : RAction → Option (RState α × Option α)
+  | .take t =>
+    match s.threads[t]?, s.queue with
+    | some .atHead, p :: rest =>
+      some (⟨rest, s.threads.set t (.running p (prog p)), s.taken ++ [p]⟩, none)
+    | _, _ => none
+  | .exit t =>
+    match s.threads[t]?, s.queue with
+    | some .atHead, [] => some (⟨[], s.threads.set t .done, s.taken⟩, none)
+    | _, _ => none
+  | .micro t =>
+    match s.threads[t]? with
+    | some (.running p (a :: rest)) => some (⟨s.queue, s.threads.set t (.running p rest), s.taken⟩, some a)
+    | _ => none
+  | .finish t =>
+    match s.threads[t]? with
+    | some (.running _ []) => some (⟨s.queue, s.threads.set t .atHead, s.taken⟩, none)
+    | _ => none
+  | .fail t =>
+    match s.threads[t]? with
+    | some (.running _ _) => some (⟨s.queue, s.threads.set t .failed, s.taken⟩, none)
+    | _ => none
+
+/-- a run: the final state and the steps performed, in the order they were performed -/
+def rRun {α : Type} (prog : Nat → List α) (s : RState α) : List RAction → Option (RState α × List α)
+  | [] => some (s, [])
+  | a :: as =>
+    match rStep prog s a with
+    | none => none
+    | some (s', o) =>
+      match rRun prog s' as with
+      | none => none
+      | some (s'', out) => some (s'', o.toList ++ out)
+
+/-- forget the program counters: the state of the abstract protocol -/
+def RThread.erase {α : Type} : RThread α → TState
+  | .atHead => .atHead
+  | .running p _ => .running p
+  | .done => .done
+  | .failed => .failed
+
+def RState.erase {α : Type} (s : RState α) : QState := ⟨s.queue, s.threads.map RThread.erase, s.taken⟩
+
+/-- the protocol action a refined action is (`micro` is internal to the kernel call) -/
+def RAction.erase : RAction → Option QAction
+  | .take t => some (.take t)
+  | .exit t => some (.exit t)
+  | .micro _ => none
+  | .finish t => some (.finish t)
+  | .fail t => some (.fail t)
+
 end Pyndl
